@@ -59,6 +59,7 @@ type c39 struct {
 	fType, fState, fPeer  *types.Var
 	fRemIdx, fLocIdx, fRS *types.Var
 	relayT                *types.Named
+	dl                    *fix7Delegation // pieces of the tabled functions extracted into private helpers
 }
 
 func (k *c39) constIs(val int64) func(ssa.Value) bool {
@@ -132,6 +133,30 @@ func runC39(c *Ctx) {
 	if len(k.st) != 4 || k.fType == nil || k.fState == nil || k.fPeer == nil || k.fRemIdx == nil || k.fLocIdx == nil || k.fRS == nil || k.relayT == nil {
 		return
 	}
+	// delegation: a new unexported same-package function all of whose callers are (pieces of) tabled
+	// functions is a piece of those tabled functions; its parameters carry the arguments of its call sites
+	{
+		tabled := map[string]bool{}
+		for n := range c39Creators {
+			tabled[n] = true
+		}
+		for _, s := range c39Sites {
+			tabled[s.fn] = true
+		}
+		for _, r := range []Ref{c39AddRelay, {"", "relayManager", "handleCreateRelayResponse"}, {"", "relayManager", "HandleControlMsg"}} {
+			if f := c.funcQuiet(r); f != nil {
+				tabled[fnName(f)] = true
+			}
+		}
+		var roots []*ssa.Function
+		for _, f := range k.funcs {
+			if f.Parent() == nil && tabled[fnName(f)] && c39AddRelay.Name != f.Name() {
+				roots = append(roots, f)
+			}
+		}
+		k.dl = fix7Delegates(c, k.funcs, roots, func(f *ssa.Function) bool { return tabled[fnName(f)] })
+		defer k.dl.bind()()
+	}
 	k.amRelay()
 	k.forward()
 	k.lookup()
@@ -167,7 +192,7 @@ func (k *c39) amRelay() {
 		return func(v ssa.Value) bool {
 			return c39AllOrigins(v, c39ResultOf(Ref{"", "", "protoAddrToNetAddr"}, -1, func(a []ssa.Value) bool {
 				base, ok := g7FieldLoadBase(a[0], f)
-				return ok && base == ssa.Value(m)
+				return ok && c39AllOrigins(base, c39IsVal(m))
 			}))
 		}
 	}
@@ -188,7 +213,14 @@ func (k *c39) amRelay() {
 
 	var fwd, term, all []Sink
 	pairBad := ""
-	eachInstr(fn, func(in ssa.Instruction) {
+	// the handler and the private helpers its body was split into (their parameters are bound to the
+	// handler's values, see fix7Delegation)
+	parts := k.dl.partsOf(fn)
+	inParts := map[*ssa.Function]bool{}
+	for _, p := range parts {
+		inParts[p.Fn] = true
+	}
+	scan := func(in ssa.Instruction) {
 		ci, ok := in.(ssa.CallInstruction)
 		if !ok {
 			return
@@ -239,10 +271,13 @@ func (k *c39) amRelay() {
 				pairBad += fmt.Sprintf(" control message sent to %s at %s;", exprString(a[3]), c.instrPos(in))
 			}
 		}
-	})
-	c.requireGuards("C39.am-relay", fn, all, "relay-state-change-or-send", notFromMe)
-	c.requireGuards("C39.am-relay", fn, fwd, "forwarding-setup", targetNotMe, amRelay, peerFound, direct)
-	c.requireGuards("C39.am-relay", fn, term, "terminal-setup", targetMe)
+	}
+	for _, p := range parts {
+		eachInstr(p.Fn, scan)
+	}
+	k.dl.requireGuards("C39.am-relay", fn, all, "relay-state-change-or-send", notFromMe)
+	k.dl.requireGuards("C39.am-relay", fn, fwd, "forwarding-setup", targetNotMe, amRelay, peerFound, direct)
+	k.dl.requireGuards("C39.am-relay", fn, term, "terminal-setup", targetMe)
 	// C39.requester: the pair a forwarding relay is set up for is (authenticated requester, target).
 	// The records on the target tunnel are keyed by the message's from-address; that address must be
 	// the requester's own, otherwise a peer can (re)negotiate, reset and re-index another pair's relay.
@@ -276,13 +311,12 @@ func (k *c39) amRelay() {
 		} else if len(need) == 0 {
 			c.OK("C39.requester", cons, "the onward records are keyed by h.vpnAddrs")
 		} else {
-			edges, nt := passEdges(fn, member)
 			bad := false
 			for _, s := range need {
-				prev := reachable(fn.Blocks[0], edges)
-				if _, r := prev[s.Instr.Block()]; r {
+				// in the handler, or in the helper the set-up was moved to / before the call of that helper
+				if held, nt, path := k.dl.holds(s, member, 0); !held {
 					bad = true
-					c.Bad("C39.requester", cons, c.instrPos(s.Instr), fmt.Sprintf("%s on the target's tunnel is keyed by the message's relayFrom, which is never compared with the authenticated sender's addresses (%d membership tests found): a third peer can reset / re-index the relay of another pair, and the target's traffic for the impostor is then forwarded to that pair's peer", s.Desc, nt), c.blockPath(prev, s.Instr.Block())...)
+					c.Bad("C39.requester", cons, c.instrPos(s.Instr), fmt.Sprintf("%s on the target's tunnel is keyed by the message's relayFrom, which is never compared with the authenticated sender's addresses (%d membership tests found): a third peer can reset / re-index the relay of another pair, and the target's traffic for the impostor is then forwarded to that pair's peer", s.Desc, nt), path...)
 					break
 				}
 			}
@@ -319,7 +353,7 @@ func (k *c39) amRelay() {
 			switch {
 			case t == k.terminal:
 				c.OK("C39.am-relay", cons, "TerminalType")
-			case t == k.forwarding && encl == fn:
+			case t == k.forwarding && inParts[encl]:
 				c.OK("C39.am-relay", cons, "ForwardingType inside the guarded forwarding branch")
 			default:
 				c.Bad("C39.am-relay", cons, c.instrPos(s), "a forwarding (or unknown-type) relay record is created outside handleCreateRelayRequest's am_relay-guarded branch")
@@ -337,8 +371,10 @@ func (k *c39) amRelay() {
 
 // fieldAddrOf: v is &base.f with base == want.
 func (k *c39) fieldAddrOf(v ssa.Value, f *types.Var, want ssa.Value) bool {
-	fa, ok := v.(*ssa.FieldAddr)
-	return ok && fieldOfAddr(fa) == f && fa.X == want
+	return c39AllOrigins(v, func(o ssa.Value) bool {
+		fa, ok := o.(*ssa.FieldAddr)
+		return ok && fieldOfAddr(fa) == f && (fa.X == want || c39AllOrigins(fa.X, c39IsVal(want)))
+	})
 }
 
 // ---------------------------------------------------------------------------------------
@@ -672,7 +708,15 @@ func (k *c39) transitions() {
 					c.Bad("C39.transitions", cons+":state", c.instrPos(in), "AddRelay is given a state that is not one of the four constants: "+exprString(a[6]))
 					return
 				}
-				why, tab := c39Creators[encl]
+				// a private helper all of whose callers are (pieces of) tabled creators is a piece of them
+				why, tab := "", true
+				for _, rn := range k.dl.rootNames(fn) {
+					w, isTab := c39Creators[rn]
+					tab = tab && isTab
+					if why == "" {
+						why = w
+					}
+				}
 				if !tab {
 					c.Bad("C39.transitions", cons+":site", c.instrPos(in), "relay records are created at a site that is not part of the tabled protocol")
 					return
@@ -693,6 +737,9 @@ func (k *c39) transitions() {
 					c.OK("C39.transitions", cons+":new->"+k.stateName(sv), "created only when QueryRelayForByIp found nothing ("+why+")")
 				case okG:
 					c.Unknown("C39.transitions", cons+":new->"+k.stateName(sv), "existence test not recognised")
+				case k.dl.isDelegate(fn) && k.callersCall(fn, c39ByIp):
+					// the existence test may sit in the caller, before the call of this helper: not followed
+					c.Unknown("C39.transitions", cons+":new->"+k.stateName(sv), "the helper creates the record without testing QueryRelayForByIp itself; its callers look records up, the correspondence is not followed")
 				default:
 					c.Bad("C39.transitions", cons+":new->"+k.stateName(sv), c.instrPos(in), "a relay record can be (re)created although one exists for that peer: the existing record's state and index are overwritten", path...)
 				}
@@ -709,10 +756,38 @@ func (k *c39) transitions() {
 				}
 				ord[encl+":"+name+to]++
 				cons := fmt.Sprintf("%s:%s->%s#%d", encl, name, to, ord[encl+":"+name+to])
+				// the site of the tabled function this function is (a piece of); a helper shared by several
+				// tabled functions may move a record only from states every one of them allows
 				var site *c39Site
-				for i := range c39Sites {
-					if s := &c39Sites[i]; s.fn == encl && s.callee == name && s.to == to {
-						site = s
+				for _, rn := range k.dl.rootNames(fn) {
+					var found *c39Site
+					for i := range c39Sites {
+						if s := &c39Sites[i]; s.fn == rn && s.callee == name && s.to == to {
+							found = s
+						}
+					}
+					switch {
+					case found == nil:
+						site = nil
+					case site == nil:
+						cp := *found
+						site = &cp
+					case found.from == nil:
+					case site.from == nil:
+						site.from = found.from
+					default:
+						var both []string
+						for _, x := range site.from {
+							for _, y := range found.from {
+								if x == y {
+									both = append(both, x)
+								}
+							}
+						}
+						site.from = append([]string{}, both...)
+					}
+					if found == nil {
+						break
 					}
 				}
 				if site == nil {
@@ -733,6 +808,11 @@ func (k *c39) transitions() {
 					if site.from != nil && !allowed[s] {
 						extra = append(extra, s)
 					}
+				}
+				if len(extra) > 0 && k.dl.isDelegate(fn) && k.callersTestState(fn) {
+					// the state tests may sit in the caller, before the call of this helper: not followed
+					c.Unknown("C39.transitions", cons, fmt.Sprintf("inside the helper a record in state %v can be moved to %s; its callers test record states before the call, the correspondence is not followed", extra, to))
+					return
 				}
 				c.Check(len(extra) == 0, "C39.transitions", cons, c.instrPos(in), fmt.Sprintf("from %v (%s)", from, site.why), fmt.Sprintf("a record in state %v can be moved to %s here; the protocol allows only %v at this site (%s)", extra, to, site.from, site.why))
 			}
@@ -764,15 +844,47 @@ func (k *c39) transitions() {
 	if fn := c.Func(Ref{"", "relayManager", "handleCreateRelayRequest"}); fn != nil {
 		m := fn.Params[4]
 		fInit := c.Field("", "NebulaControl", "InitiatorRelayIndex")
-		sinks := callSinks(fn, "re-establish", CallSpec{Refs: []Ref{c39UpdIp}, Args: map[int]func(ssa.Value) bool{2: k.constIs(k.st["Established"])}})
-		c.requireGuards("C39.transitions", fn, sinks, "re-establish-terminal", gCmp("the request carries the index the record already has", func(v ssa.Value) bool {
+		var sinks []Sink
+		for _, p := range k.dl.partsOf(fn) {
+			sinks = append(sinks, callSinks(p.Fn, "re-establish", CallSpec{Refs: []Ref{c39UpdIp}, Args: map[int]func(ssa.Value) bool{2: k.constIs(k.st["Established"])}})...)
+		}
+		k.dl.requireGuards("C39.transitions", fn, sinks, "re-establish-terminal", gCmp("the request carries the index the record already has", func(v ssa.Value) bool {
 			_, ok := g7FieldLoadBase(stripValue(v), k.fRemIdx)
 			return ok
 		}, func(v ssa.Value) bool {
 			base, ok := g7FieldLoadBase(stripValue(v), fInit)
-			return ok && base == ssa.Value(m)
+			return ok && c39AllOrigins(base, c39IsVal(m))
 		}, mustEqual))
 	}
+}
+
+// callersCall: some function above the delegate fn calls ref.
+func (k *c39) callersCall(fn *ssa.Function, ref Ref) bool {
+	for _, f := range k.dl.callerChain(fn) {
+		if len(callsIn(f, ref)) > 0 {
+			return true
+		}
+	}
+	return false
+}
+
+// callersTestState: some function above the delegate fn compares a Relay.State with a constant.
+func (k *c39) callersTestState(fn *ssa.Function) bool {
+	found := false
+	for _, f := range k.dl.callerChain(fn) {
+		eachInstr(f, func(in ssa.Instruction) {
+			bo, ok := in.(*ssa.BinOp)
+			if !ok || (bo.Op != token.EQL && bo.Op != token.NEQ) {
+				return
+			}
+			for _, x := range []ssa.Value{bo.X, bo.Y} {
+				if _, isF := g7FieldLoadBase(stripValue(x), k.fState); isF {
+					found = true
+				}
+			}
+		})
+	}
+	return found
 }
 
 func (k *c39) stateIdx(v int64) (string, bool) {
